@@ -119,6 +119,10 @@ def main():
                 meta["ran"].append(f"python3 run_check.py {chk} --tier {tier} --src <worktree with patch>")
                 if rc == 1 and viol:
                     break  # detected; no need for the deeper tier
+            # a quick-only re-evaluation keeps the result of an earlier thorough run (it is not repeated)
+            prev_chk = (prev_meta.get("detected_by") or {}).get(chk) or {}
+            if "thorough" not in res and "thorough" in prev_chk and not (res.get("quick", {}).get("exit") == 1):
+                res["thorough"] = dict(prev_chk["thorough"], carried_over=True)
             meta["detected_by"][chk] = res
         print(json.dumps(meta, indent=1))
     finally:
